@@ -107,7 +107,20 @@ package loader
 //@   assigns types.ProcessConfig.WorkingDir[*], heap(MapVal.Str.types.ProcessConfig)
 //@ func loadExtendProject
 //@   requires p != nil && opts != nil && 0 <= index && index <= len(opts.projects) && index <= len(opts.FileNames)
+//@   requires before-its-child: index == len(opts.projects) || opts.projects[index] == p
 //@   ensures no-extends: old(p.ExtendsProject) == "" ==> result == nil && opts.projects == old(opts.projects)
 //@   ensures grows: result == nil ==> len(opts.projects) >= old(len(opts.projects))
 //@   ensures prefix-kept: result == nil ==> (forall j int {opts.projects[j]} :: 0 <= j && j < index ==> opts.projects[j] == old(opts.projects[j]))
+//@   ensures same-growth: result == nil ==> len(opts.FileNames) - old(len(opts.FileNames)) == len(opts.projects) - old(len(opts.projects))
 //@   ensures suffix-stays-behind: result == nil ==> (forall j int {old(opts.projects[j])} :: index <= j && j < old(len(opts.projects)) ==> opts.projects[shiftIdx(j, len(opts.projects) - old(len(opts.projects)))] == old(opts.projects[j]))
+
+// C15: the files are folded in the order given, and the base of a file that extends another one is placed
+// immediately before that file - i.e. at the end of what has been loaded so far, not at the file's position in the
+// command line (the two differ as soon as an earlier file had a base of its own).
+//@ func Load
+//@   requires opts != nil && len(opts.projects) == 0
+//@   loop 1 invariant opts != nil && idx >= -1 && len(opts.FileNames) == len(opts.projects) + len(fileNames) - (idx + 1) && len(opts.projects) >= idx + 1 && len(fileNames) >= 1 && idx < len(fileNames)
+//@ func autoDiscoverComposeFile
+//@   requires opts != nil
+//@   ensures found: result == nil ==> len(opts.FileNames) >= 1
+//@   ensures projects-untouched: opts.projects == old(opts.projects)
